@@ -2,7 +2,7 @@
 # eval_seeds.sh <tier> [seed-id ...]: apply each seeded patch to /repo, run its property's check, undo.
 tier=$1; shift
 cd /verif
-seeds=${@:-$(ls seeded)}
+seeds=${@:-$(ls seeded | grep -v "^_")}
 for sid in $seeds; do
   prop=${sid%%-*}
   ./tools/try_seed.sh /verif/seeded/$sid/patch.diff $tier $prop 2>&1 | sed "s|^SEED patch.diff|SEED $sid|"
